@@ -42,6 +42,7 @@ let disk_token (f : fnode) =
   | Bytes l -> Printf.sprintf "B%d:%08x" (List.length l) (fnv l)
 
 let () = each_line (fun line ->
+  if String.length line >= 2 && String.sub line 0 2 = "G " then "G-ORACLE-ONLY" else
   match String.split_on_char '|' line with
   | [lay; pert; ops] ->
     (match split_ws lay with
